@@ -83,7 +83,9 @@ theorem C32_sent_values (hs : List (Handler M R V E)) (m : M) :
         | _ => none)
       | none => none := by
   simp only [answer, sent, respond, lookup, Gen.lookupReversed, Gen.resetSendValue]
-  cases hs.find? (·.pred m) <;> simp
+  cases hs.find? (·.pred m) with
+  | none => simp
+  | some h => cases h.run m <;> rfl
 
 /-- **Newest matching handler wins (one step).**  After `add_handler(.., h)` with the default
     index, a message matched by `h` is answered by `h`; any other message is answered as before. -/
@@ -106,7 +108,7 @@ theorem C32_newest_of_all (hs0 adds : List (Handler M R V E)) (m : M) :
     rw [List.foldl_cons, ih]
     simp only [addHandler, Gen.addHandlerDefaultIndex, pyInsert_zero, lookup_cons,
       List.reverse_cons, List.find?_append, List.find?_cons, List.find?_nil]
-    cases h.pred m <;> simp [Option.or_assoc]
+    cases h.pred m <;> simp
 
 /-- `index=END` appends: such a handler only answers messages no existing handler matches.
     The same holds for `add_handler_for_callback_subscribes`, which also appends. -/
@@ -130,29 +132,189 @@ theorem C32_add_handler_predicate (commands : List String) (flt : Filter) (m : M
   | fn f => simp
   | name s => cases h : m.obj <;> simp
 
-/-- **Return value.**  If the plan returns `v` -- at the very first `send(None)`, right after the
-    first answer, or after any number of yields -- `return_value` is set to exactly `v`; and a call
-    that ended with the plan returning stored the plan's value, nothing else. -/
+/-- **Return value.**  A call that ended after the plan returned `v` -- at the very first
+    `send(None)`, right after the first answer, or after any number of yields -- has set
+    `return_value` to exactly `v`. -/
 theorem C32_return_value (truthy : M → Bool) (hs : List (Handler M R V E)) (p : Plan M R V E)
     (fuel : Nat) (msgs : List M) (rv : Option V) (v : V)
-    (h : simulate truthy hs p fuel = .done msgs rv) (hret : p (msgs.map (answer hs)) = .ret v) :
+    (h : simulate truthy hs p fuel = .done msgs rv) (hr : HandlersReturn hs msgs)
+    (hret : p (msgs.map (answer hs)) = .ret v) :
     rv = some v := by
   obtain ⟨_, _, hf⟩ := C32_messages_sound truthy hs p fuel msgs rv h
   rcases hf with ⟨v', hv', e⟩ | ⟨m, hm, _, _⟩ | ⟨pre, m, v', hm, hstop, e⟩
   · rw [hret] at hv'; injection hv' with hv'; subst hv'
     simpa [record, Gen.recordsReturnValue] using e
   · rw [hret] at hm; simp at hm
-  · -- the last message's handler raised StopIteration: then the plan was never resumed after it,
-    -- but `hret` is about the history in which `answer` treats that handler's result as None
-    subst hm
-    simp only [record, Gen.recordsReturnValue, ↓reduceIte] at e
-    -- cannot conclude v' = v: excluded by `C32_return_value'` below; here we use the plan output
-    -- only when the handler returned normally
-    exact absurd hstop (by
-      intro hs'
-      -- `answer hs m = none` in this case; nothing contradictory: handled separately
-      exact False.elim (by
-        have := hs'
-        exact?))
+  · obtain ⟨r, hr'⟩ := hr m (by simp [hm])
+    rw [hstop] at hr'; simp at hr'
+
+/-- ... in particular when the plan returns on the first `send(None)` without yielding anything -/
+theorem C32_return_value_immediate (truthy : M → Bool) (hs : List (Handler M R V E))
+    (p : Plan M R V E) (v : V) (k : Nat) (h : p [] = .ret v) :
+    simulate truthy hs p (k + 1) = .done [] (some v) := by
+  have := C32_messages truthy hs p [] v k (Yields.nil _ _) (by simp) (by intro m hm; simp at hm) (by simpa using h)
+  simpa using this
+
+/-- `return_value` is touched only when the plan returned (or a handler raised StopIteration):
+    a call that ended at a falsy message leaves it alone and returns the messages so far. -/
+theorem C32_falsy_message_stops (truthy : M → Bool) (hs : List (Handler M R V E)) (p : Plan M R V E)
+    (msgs : List M) (m : M) (k : Nat)
+    (hy : Yields p (answer hs) msgs) (ht : ∀ m ∈ msgs, truthy m = true)
+    (hr : HandlersReturn hs msgs) (hm : p (msgs.map (answer hs)) = .yld m) (hf : truthy m = false) :
+    simulate truthy hs p (msgs.length + (k + 1)) = .done msgs none := by
+  have := simLoop_advance truthy hs p msgs [] (k + 1) (by simpa using hy) ht hr
+  simp only [List.map_nil, List.nil_append] at this
+  rw [simulate, this]
+  simp [simLoop, hm, hf]
+
+/-- What the code does outside the property's domain: a handler that raises StopIteration at
+    message `m` is mistaken for the end of the plan -- the call returns the messages up to `m` and
+    overwrites `return_value` with the StopIteration's value. -/
+theorem C32_handler_stopiteration (truthy : M → Bool) (hs : List (Handler M R V E)) (p : Plan M R V E)
+    (msgs : List M) (m : M) (v : V) (k : Nat)
+    (hy : Yields p (answer hs) msgs) (ht : ∀ m ∈ msgs, truthy m = true)
+    (hr : HandlersReturn hs msgs) (hm : p (msgs.map (answer hs)) = .yld m) (htm : truthy m = true)
+    (hstop : respond hs none m = .stop v) :
+    simulate truthy hs p (msgs.length + (k + 1)) = .done (msgs ++ [m]) (some v) := by
+  have := simLoop_advance truthy hs p msgs [] (k + 1) (by simpa using hy) ht hr
+  simp only [List.map_nil, List.nil_append] at this
+  rw [simulate, this]
+  simp [simLoop, hm, htm, hstop, record, Gen.recordsReturnValue]
+
+/-- an exception raised by the plan leaves `simulate_plan` (no list, `return_value` untouched) -/
+theorem C32_plan_exception_propagates (truthy : M → Bool) (hs : List (Handler M R V E)) (p : Plan M R V E)
+    (msgs : List M) (e : E) (k : Nat)
+    (hy : Yields p (answer hs) msgs) (ht : ∀ m ∈ msgs, truthy m = true)
+    (hr : HandlersReturn hs msgs) (he : p (msgs.map (answer hs)) = .raise e) :
+    simulate truthy hs p (msgs.length + (k + 1)) = .raised e := by
+  have := simLoop_advance truthy hs p msgs [] (k + 1) (by simpa using hy) ht hr
+  simp only [List.map_nil, List.nil_append] at this
+  rw [simulate, this]
+  simp [simLoop, he]
+
+/-! ### check_limits -/
+
+/-- **check_limits raises at the first offending `set`.**  For every plan (terminating or not): if
+    its first messages under `for msg in plan` are `pre` -- all well-formed, none offending --
+    followed by a `set` on a limit-checked device with a value outside its limits, `check_value`
+    raises at that message; nothing after it is consumed. -/
+theorem C32_check_limits_raises_at_first (p : Plan Msg R V E) (pre : List Msg) (m : Msg) (f : Nat)
+    (hy : YieldsNone p (pre ++ [m]))
+    (hw : ∀ x ∈ pre, wfSet x = true) (hn : ∀ x ∈ pre, offending x = false) (ho : offending m = true) :
+    checkLimits p (pre.length + (f + 1)) = .limitError pre.length := by
+  have hy' : ∀ j (h : j < pre.length), p (List.replicate (0 + j) none) = .yld pre[j] := by
+    intro j h
+    have := hy j (by simp; omega)
+    rw [List.getElem_append_left h] at this
+    simpa using this
+  obtain ⟨ig, hi, e⟩ := checkLoop_advance p pre (f + 1) 0 [] hy' hw hn (by intro d hd; simp at hd)
+  have hm : p (List.replicate pre.length none) = .yld m := by
+    have := hy pre.length (by simp)
+    simpa using this
+  rw [checkLimits, e]
+  simpa using checkLoop_offending p f (0 + pre.length) ig m (by simpa using hm) ho hi
+
+/-- **check_limits raises iff some `set` is out of limits.**  For every plan that yields the
+    well-formed messages `msgs` and then returns: `check_limits` raises the device's limit error
+    iff some message is a `set` whose object has `check_value`/limits `(low, high)` with
+    `low < high` and whose value is outside `[low, high]`; otherwise it finishes normally. -/
+theorem C32_check_limits_iff (p : Plan Msg R V E) (msgs : List Msg) (v : V) (f : Nat)
+    (hy : YieldsNone p msgs) (hret : p (List.replicate msgs.length none) = .ret v)
+    (hw : ∀ x ∈ msgs, wfSet x = true) :
+    (∃ k, checkLimits p (msgs.length + (f + 1)) = .limitError k) ↔ ∃ m ∈ msgs, offending m = true := by
+  constructor
+  · intro ⟨k, hk⟩
+    apply Classical.byContradiction
+    intro hne
+    have hn : ∀ x ∈ msgs, offending x = false := by
+      intro x hx
+      cases hox : offending x with
+      | false => rfl
+      | true => exact absurd ⟨x, hx, hox⟩ hne
+    have hy' : ∀ j (h : j < msgs.length), p (List.replicate (0 + j) none) = .yld msgs[j] := by
+      intro j h; simpa using hy j h
+    obtain ⟨ig, _, e⟩ := checkLoop_advance p msgs (f + 1) 0 [] hy' hw hn (by intro d hd; simp at hd)
+    rw [checkLimits, e, checkLoop_succ] at hk
+    simp [hret] at hk
+  · intro h
+    obtain ⟨pre, m, post, e, hpre, hm⟩ := exists_first offending msgs h
+    subst e
+    have hy1 : YieldsNone p (pre ++ [m]) := by
+      intro i hi
+      have hi' : i < (pre ++ m :: post).length := by simp at hi ⊢; omega
+      have := hy i hi'
+      rw [this]
+      congr 1
+      simp only [List.getElem_append]
+      split
+      · rfl
+      · have : i = pre.length := by simp at hi; omega
+        subst this; simp
+    have := C32_check_limits_raises_at_first p pre m (post.length + f + 1) hy1
+      (fun x hx => hw x (by simp [hx])) hpre hm
+    refine ⟨pre.length, ?_⟩
+    have hl : (pre ++ m :: post).length + (f + 1) = pre.length + (post.length + f + 1 + 1) := by
+      simp only [List.length_append, List.length_cons]; omega
+    rw [hl]; exact this
+
+/-- what "offending" means, spelled out: command `set`, an object with limits `low < high`, and
+    the first argument outside `[low, high]` -/
+theorem C32_offending_iff (m : Msg) :
+    offending m = true ↔
+      m.command = "set" ∧ ∃ d v lo hi, m.obj = some d ∧ m.args[0]? = some v ∧ d.limits = some (lo, hi) ∧
+        lo < hi ∧ ¬ (lo ≤ v ∧ v ≤ hi) := by
+  simp only [offending, Gen.checkedCommand, Gen.checkedArgIndex, Bool.and_eq_true, beq_iff_eq]
+  constructor
+  · rintro ⟨hc, h⟩
+    refine ⟨hc, ?_⟩
+    cases hd : m.obj with
+    | none => simp [hd] at h
+    | some d =>
+      cases hv : m.args[0]? with
+      | none => simp [hd, hv] at h
+      | some v =>
+        cases hl : d.limits with
+        | none => simp [hd, hv, hl] at h
+        | some lim =>
+          obtain ⟨lo, hi⟩ := lim
+          simp only [hd, hv, hl, outOfLimits, Bool.and_eq_true, decide_eq_true_eq, Bool.not_eq_true',
+            Bool.and_eq_false_iff, decide_eq_false_iff_not] at h
+          exact ⟨d, v, lo, hi, rfl, rfl, hl, h.1, by omega⟩
+  · rintro ⟨hc, d, v, lo, hi, hd, hv, hl, hlt, hout⟩
+    refine ⟨hc, ?_⟩
+    simp only [hd, hv, hl, outOfLimits, Bool.and_eq_true, decide_eq_true_eq, Bool.not_eq_true',
+      Bool.and_eq_false_iff, decide_eq_false_iff_not]
+    exact ⟨hlt, by omega⟩
+
+/-! ### Non-vacuity: a concrete branching plan, handlers, and limits -/
+
+/-- yields `"a"`; if it receives `some 7` yields `"b"` and returns 1, otherwise returns 0 -/
+def demoPlan : Plan String Int Int String
+  | [] => .yld "a"
+  | [some 7] => .yld "b"
+  | [some 7, _] => .ret 1
+  | _ => .ret 0
+
+def hOld : Handler String Int Int String := { pred := fun m => m == "a", run := fun _ => .val (some 3) }
+def hNew : Handler String Int Int String := { pred := fun m => m == "a", run := fun _ => .val (some 7) }
+
+example : simulate (fun _ => true) (addHandler (addHandler [] hOld) hNew) demoPlan 5 = .done ["a", "b"] (some 1) := by decide
+example : simulate (fun _ => true) (addHandler (addHandler [] hNew) hOld) demoPlan 5 = .done ["a"] (some 0) := by decide
+example : simulate (fun _ => true) (addHandler (addHandler [] hOld) hNew .end_) demoPlan 5 = .done ["a"] (some 0) := by decide
+example : Yields demoPlan (answer (addHandler (addHandler [] hOld) hNew)) ["a", "b"] := by
+  intro i h
+  match i, h with
+  | 0, _ => decide +revert
+  | 1, _ => decide +revert
+  | n + 2, h => simp at h; omega
+
+def demoDev : Dev := { id := 0, name := "m", limits := some (-2, 5) }
+def demoMoves : Plan Msg Int Int String
+  | [] => .yld { command := "set", obj := some demoDev, args := [5] }
+  | [_] => .yld { command := "set", obj := some demoDev, args := [6] }
+  | _ => .ret 0
+example : checkLimits demoMoves 9 = .limitError 1 := by decide
+example : offending { command := "set", obj := some demoDev, args := [6] } = true := by decide
+example : offending { command := "set", obj := some demoDev, args := [5] } = false := by decide
 
 end BlueskyVerif.C32
